@@ -223,6 +223,12 @@ func (en *Env) ident(name string) Val {
 	if v, ok := en.vars[name]; ok {
 		return v
 	}
+	if name == "time_now" {
+		if en.ex.lastNow == nil {
+			en.fail("time_now: the function has not read the clock")
+		}
+		return *en.ex.lastNow
+	}
 	// inside old(): parameters denote their entry values
 	if en.fr != nil && en.old != nil && en.st == en.old && en.fr.params != nil {
 		if v, ok := en.fr.params[name]; ok {
